@@ -38,7 +38,9 @@ def main():
     src = Path(args.dir)
     meta = json.loads((src / "meta.json").read_text()) if (src / "meta.json").exists() else {}
     prop = meta.get("property", args.name.split("-")[0])
-    checks = [c for c in args.checks.split(",") if c] or [prop]
+    previous = meta.get("verification") or {}
+    # (re-checking a kept change, `tools/seeds.py seeded/<name> <name>`: the checks named last time)
+    checks = [c for c in args.checks.split(",") if c] or [r["check"] for r in previous.get("checks", [])] or [prop]
     wt = Path(tempfile.mkdtemp(prefix="vx-seedv-"))
     wt.rmdir()
     r = sh(f"git -C /repo worktree add -q --detach {wt} HEAD")
@@ -66,6 +68,8 @@ def main():
                 import re
 
                 result["tests_pass"] = not re.search(r"\b\d+ (failed|error)", t.stdout)
+            if not args.tests and "tests" in previous:
+                result["tests"], result["tests_pass"] = previous["tests"], previous.get("tests_pass", True)
             result["confirmed"] = base.returncode == 0 and patched.returncode != 0 and result.get("tests_pass", True)
         # run the checks against the patched sources
         runs = []
@@ -82,8 +86,12 @@ def main():
         shutil.rmtree(wt, ignore_errors=True)
     out = VERIF / "seeded" / args.name
     out.mkdir(parents=True, exist_ok=True)
-    shutil.copy(src / "patch.diff", out / "patch.diff")
-    shutil.copy(src / "demo.py", out / "demo.py")
+    if src.resolve() != out.resolve():
+        shutil.copy(src / "patch.diff", out / "patch.diff")
+        shutil.copy(src / "demo.py", out / "demo.py")
+    elif not result.get("applies", True):
+        # the code the change touches has been repaired since: the earlier verification stands
+        result = dict(previous, applies_to_current_tree=False)
     meta.update({"property": prop, "verification": result, "how_run": "tools/seeds.py (scratch worktree of /repo HEAD; checks run with VERIF_REPO pointing at the patched worktree)"})
     (out / "meta.json").write_text(json.dumps(meta, indent=1))
     status = ("CAUGHT" if result.get("caught") else "MISSED") if result["confirmed"] else "UNCONFIRMED"
